@@ -31,7 +31,7 @@ Sp(o) == IF o.wide THEN <<32, 9, 32>> ELSE <<32>>
 Comma(o) == IF o.wide THEN <<32, 44, 9>> ELSE <<44, 32>>
 K(name, o) == IF o.low THEN Lower(Kw(name)) ELSE Kw(name)
 LabA == <<76, 111, 111, 112>>      \* "Loop"
-LabB == <<95, 120, 49>>            \* "_x1"
+LabB == <<114, 50, 100, 50>>       \* "r2d2": begins like a register, is an identifier
 
 \* the statement universe: [n |-> nucleus (as Grammar builds it, without spans), txt(o) |-> its bytes, op |-> label operand or <<>>]
 NucOf(k, a, b, c, m, lbl, str, strb) == [k |-> k, a |-> a, b |-> b, c |-> c, m |-> m, lbl |-> lbl, str |-> str, strb |-> strb]
